@@ -119,4 +119,75 @@ def gDemoOps : List GOp :=
   [.connect 0, .connect 1, .connect 2, .write 0 true, .deliver 0, .write 1 true, .deliver 1,
    .publish 1, .publish 0, .deliver 2, .deliver 2, .publish 0]
 
+/-! ## Line protocol: the stacked shapes of the harness, all elements of the printed universe
+
+`gs new <shape> <A> <B> <C>` builds the graph over three base sets with the given contents (subscriptions in the
+order of the code: per derived node its sources in argument order; `SubtractReactive`: the source, then the subtracted
+sets), `gs add|del|replace|apply …` writes a base set; after every request all reports are delivered (the code delivers
+synchronously; by `C14_compose_unique` the order does not matter) and the contents of the derived nodes are printed. -/
+
+/-- (kind is DerivedSet, inputs) per derived node 3, 4, … — the same table as `stackShapes` in harness/c14/stack.go. -/
+def gShape : String → Option (List (Bool × List Nat))
+  | "ds-sub" => some [(false, [0, 1]), (true, [3])]
+  | "ds-ds" => some [(true, [0, 1]), (true, [3, 2])]
+  | "ds-ds-sub" => some [(false, [0, 1]), (true, [3, 2]), (true, [4])]
+  | "sub-sub" => some [(false, [0, 1]), (false, [3, 2])]
+  | "sub-ds" => some [(true, [0, 1]), (false, [3, 2])]
+  | "ds-sub-ds" => some [(true, [0, 1]), (false, [3, 2]), (true, [4, 0])]
+  | "sub-subs" => some [(false, [0, 1]), (false, [2, 1]), (false, [3, 4])]
+  | "ds-sub-sub" => some [(false, [0, 1]), (false, [3, 2]), (true, [4, 3])]
+  | _ => none
+
+def gWiringOf (nodes : List (Bool × List Nat)) : List (Nat × Nat × Bool × Bool) :=
+  (nodes.zipIdx.map (fun p =>
+    let k := p.2 + 3
+    if p.1.1 then p.1.2.map (fun j => (j, k, true, true))
+    else match p.1.2 with
+      | [] => []
+      | src :: others => (src, k, true, false) :: others.map (fun o => (o, k, false, false)))).flatten
+
+/-- deliver the first undelivered report until nothing is queued -/
+def gSettle (base : Nat → Bool) : Nat → GS → GS
+  | 0, s => s
+  | fuel + 1, s =>
+    match s.edges.findIdx? (fun e => e.on && !e.queue.isEmpty) with
+    | some i => gSettle base fuel (gStep true base s (.deliver i))
+    | none => s
+
+structure GW where
+  nodes : Nat                -- number of derived nodes
+  per : List GS              -- one state per element of the printed universe
+
+def gBase (j : Nat) : Bool := decide (j < 3)
+
+def GW.create (nodes : List (Bool × List Nat)) (init : List (List Nat)) : GW :=
+  let wiring := gWiringOf nodes
+  { nodes := nodes.length,
+    per := (List.range U).map (fun x =>
+      let s0 := (List.range 3).foldl (fun s j => gStep true gBase s (.write j ((init.getD j []).contains x))) (GS.init wiring)
+      (List.range wiring.length).foldl (fun s i => gSettle gBase 64 (gStep true gBase s (.connect i))) s0) }
+
+def GW.write (w : GW) (j : Nat) (newMem : Nat → Bool → Bool) : GW :=
+  { w with per := w.per.zipIdx.map (fun p => gSettle gBase 64 (gStep true gBase p.1 (.write j (newMem p.2 (p.1.v j))))) }
+
+def GW.show (w : GW) : String :=
+  " ".intercalate ((List.range w.nodes).map (fun k =>
+    s!"{k + 3}={showSet (fun x => match w.per[x]? with | some s => s.v (k + 3) | none => false)}"))
+
+def GW.stepLine (st : Option GW) (toks : List String) : Option GW × String :=
+  match st, toks with
+  | none, ["new", shape, a, b, c] =>
+    match gShape shape, parseNats a, parseNats b, parseNats c with
+    | some nodes, some a, some b, some c => let w := GW.create nodes [a, b, c]; (some w, w.show)
+    | _, _, _, _ => (st, "bad-op")
+  | some w, op =>
+    match parseSrcOp op with
+    | some (j, sop) =>
+      if j < 3 then
+        let w' := w.write j (fun x cur => sop.newMem (fun y => if y == x then cur else false) x)
+        (some w', w'.show)
+      else (st, "bad-op")
+    | none => (st, "bad-op")
+  | _, _ => (st, "bad-op")
+
 end Hive.Derived
